@@ -93,11 +93,11 @@ func genC13(t *rapid.T, w *world.World) caseC13 {
 }
 
 type amtKey struct {
-	sp     int32
-	sc     string
-	dp     int32
-	dc     string
-	denom  string
+	sp    int32
+	sc    string
+	dp    int32
+	dc    string
+	denom string
 }
 
 type cntKey struct {
